@@ -1,7 +1,8 @@
-#!/bin/sh
-# runs every thorough check once, sequentially, printing the summary line of each (used with `vp run`)
+#!/bin/bash
+# usage: tools/run_thorough.sh [IDs...]
+# runs every (or the named) thorough check once, sequentially, printing the summary line of each (used with `vp run`)
 cd "$(dirname "$0")/.."
-for p in C12 C19 C20 C18 C05 C10 C07 C03 C02 C08 C04 C16 C17 C13 C01 C11 C09 C14; do
+for p in ${@:-C12 C19 C20 C18 C05 C10 C07 C03 C02 C08 C04 C16 C17 C13 C01 C11 C09 C14}; do
   t0=$(date +%s)
   nice -n 10 ./verif check $p --tier thorough > /tmp/thorough_$p.log 2>&1
   rc=$?
